@@ -115,8 +115,12 @@ def handle (op : String) (args : List Sexp) : R Sexp := do
     pure (outTbs (tbsOnly (issueCrl sha2 (← decCrlParams p) (← decIssuerOnly i) nullSigner)))
   | "time", [d] => do
     let dt ← decDateTime d
-    if timePanics dt then pure (.atom "panic")
-    else pure (.list [.atom "ok", ofBytes (encode (writeTime dt))])
+    -- as reached through a certificate's notBefore: `check_time` first, then the writer
+    match checkTime dt with
+    | some e => pure (.list [.atom "err", .atom (errName e)])
+    | none =>
+      if timePanics dt then pure (.atom "panic")
+      else pure (.list [.atom "ok", ofBytes (encode (writeTime dt))])
   | "wrap", [a, tbs, sig] => do
     pure (ofBytes (encode (.seq [.raw (← tbs.asBytes), algIdent (← decAlg a),
                                  .bitStringOctets (← sig.asBytes)])))
